@@ -4,7 +4,7 @@
    whose entity was destroyed -- also after its id was recycled, because a recycled id carries a newer version (C01). *)
 Require Import Coq.Lists.List Coq.NArith.NArith Coq.ZArith.ZArith.
 From Mustache Require Import Res Manager Palette MgrSpec Refine.
-From Mustache.proofs Require Import ManagerIsolation.
+From Mustache.proofs Require Import ManagerIsolation ManagerDeferred.
 Import ListNotations.
 
 (* every checked entry point, immediate mode: result is null / false / nothing and the state is unchanged -- for
@@ -48,3 +48,115 @@ Example C09_example :
      [XoCreate 0 3 [] false; XoDestroyNow 0 0; XoCreate 0 3 [] false; XoUpdate; XoLock; XoRemove 0 0 1 true]%N = Ok (s, issued)
   /\ map (is_valid s) issued = [false; true] /\ map fst issued = [0; 0]%N.
 Proof. eexists. eexists. split; [vm_compute; reflexivity|]. split; vm_compute; reflexivity. Qed.
+
+(* ------------------------------------------------------------------------------------------------------------ *)
+(* Deferred mode, end to end (proofs/ManagerDeferred.v). All theorems are for EVERY state of the model.            *)
+
+(* queries and guarded calls do not look at the lock: through a handle that is not valid they do nothing at any depth *)
+Theorem C09_harmless_any_lock : forall s h,
+  is_valid s h = false ->
+  (forall c, step s (OGetConst h c) = Ok (s, RCell false None)) /\
+  (forall c w, step s (OGetMut h c w) = Ok (s, RCell false None)) /\
+  (forall c, step s (OHas h c) = Ok (s, RBool false)) /\
+  (forall c, step s (OMarkDirty h c) = Ok (s, RNone)) /\
+  step s (OClone h) = Ok (s, RNullHandle) /\
+  (forall sid, step s (ORemoveShared h sid) = Ok (s, RBool false)).
+Proof. exact harmless_any_lock. Qed.
+Print Assumptions C09_harmless_any_lock.
+
+(* every mutation recorded under lock through handle h (destroy, destroyNow, removal typed or by id, assignment, the
+   builder on an existing entity) appends to the caller's buffer only commands on h, none of them a creation, with
+   registered component ids; besides the buffer only the temporaries and the log (events about temporaries) change *)
+Theorem C09_deferred_op_records : forall s o tid h s' r,
+  lockc s <> 0 -> deferred_target o = Some (tid, h) -> step s o = Ok (s', r) ->
+  exists cs, records s s' tid cs /\
+    forall c, In c cs -> cmd_handle c = h /\ (match c with ACreate _ _ _ _ => False | _ => True end) /\ cmd_regb s c = true.
+Proof. exact deferred_op_records. Qed.
+Print Assumptions C09_deferred_op_records.
+
+(* a whole buffer of commands on dead targets is skipped at unlock; only its own temporaries are destroyed *)
+Theorem C09_dead_buffer_skipped : forall s tid b,
+  buf_deadb s b = true -> apply_storage s (tid, b) = Ok (set_log s (rev (dtor_events s tid b) ++ log s)).
+Proof. exact apply_storage_dead. Qed.
+Print Assumptions C09_dead_buffer_skipped.
+
+(* THE ROUND TRIP. The manager is locked once and whatever the buffers already hold is dead (in particular: they are
+   empty). A mutation through a handle that is not valid is issued from any thread. Then the unlock succeeds and
+   reports the flush, and everything queries and iteration can observe -- slot table, locations, free list, every
+   archetype, pending destroy set, dependencies, shared pool, world version -- is exactly as before; the buffers are
+   empty again; the lifecycle log gained only events about command temporaries (their construction and destruction). *)
+Theorem C09_deferred_roundtrip : forall s o tid h s1 r,
+  lockc s = 1 -> forallb (buf_deadb s) (bufs s) = true ->
+  deferred_target o = Some (tid, h) -> is_valid s h = false -> step s o = Ok (s1, r) ->
+  exists s2, step s1 OUnlock = Ok (s2, RBool true) /\ observe s2 = observe (set_lock s 0) /\
+             Forall (fun b => b = []) (bufs s2) /\ epoch s2 = S (epoch s) /\
+             exists evs, log s2 = evs ++ log s /\ Forall ev_tmp evs.
+Proof. exact deferred_dead_harmless. Qed.
+Print Assumptions C09_deferred_roundtrip.
+
+(* the same for any number of recorded dead commands (iterate C09_deferred_op_records; buf_deadb is stable under recording) *)
+Theorem C09_dead_commands_roundtrip : forall s s1 tid cs,
+  lockc s = 1 -> forallb (buf_deadb s) (bufs s) = true -> records s s1 tid cs -> buf_deadb s cs = true ->
+  exists s2, step s1 OUnlock = Ok (s2, RBool true) /\ observe s2 = observe (set_lock s 0) /\
+             Forall (fun b => b = []) (bufs s2) /\ epoch s2 = S (epoch s) /\
+             exists evs, log s2 = evs ++ log s /\ Forall ev_tmp evs.
+Proof. exact dead_commands_roundtrip. Qed.
+Print Assumptions C09_dead_commands_roundtrip.
+
+(* THE UNLOCKED BUILDER IS NOT A CHECKED ENTRY POINT (entity_manager.hpp:1013-1027 has no validity test; C09's list of
+   checked calls does not name it). What the model does with begin(h)...end() for a handle that is not valid:
+   - no location at the handle's id (id beyond the table, e.g. the null handle; or an id that is currently free):
+     Err OobIndex, i.e. the crash of archetypes_[null index] -- theorem below;
+   - the id has been recycled: the call goes through and restructures the entity that NOW owns the id, and files the
+     stale handle in the archetype's entity list -- C09_builder_stale_example. Both are outside the contract. *)
+Theorem C09_builder_unlocked_unchecked : forall s tid h assigns removes,
+  lockc s = 0 ->
+  match nth_error (locs s) (N.to_nat (fst h)) with Some l => l_arch l = None | None => True end ->
+  step s (OBuild tid (Some h) assigns removes) = Err OobIndex.
+Proof. exact build_unlocked_no_location. Qed.
+Print Assumptions C09_builder_unlocked_unchecked.
+
+(* ---- non-vacuity ---- *)
+Definition run_ops (s : mst) (ops : list op) : res mst := fold_res (fun st o => do r <- step st o; Ok (fst r)) ops s.
+
+(* id 0 is created, destroyed and recycled; (0,0) is stale, (0,1) alive; the manager is locked once, buffers empty.
+   Every deferred mutation through the stale handle satisfies the hypotheses of C09_deferred_roundtrip. *)
+Example C09_roundtrip_example :
+  exists s, run_ops (init 2 cis2) [OCreate 0 3%N [] false; ODestroyNow 0 (0, 0)%N; OCreate 0 3%N [] false; OLock] = Ok s /\
+    lockc s = 1 /\ forallb (buf_deadb s) (bufs s) = true /\ is_valid s (0, 0)%N = false /\ is_valid s (0, 1)%N = true /\
+    (exists s1, step s (ODestroyNow 1 (0, 0)%N) = Ok (s1, RNone)) /\
+    (exists s1, step s (ODestroy 1 (0, 0)%N) = Ok (s1, RNone)) /\
+    (exists s1, step s (ORemove 1 (0, 0)%N 1 true) = Ok (s1, RNone)) /\
+    (exists s1, step s (OAssign 1 (0, 0)%N 1 (AValue 4%Z) true) = Ok (s1, RNone)) /\
+    (exists s1, step s (OBuild 1 (Some (0, 0)%N) [(1, 4%Z)] [0]) = Ok (s1, RNone)).
+Proof.
+  eexists. split; [vm_compute; reflexivity|]. repeat split; try (vm_compute; reflexivity);
+    eexists; vm_compute; reflexivity.
+Qed.
+
+(* the stale assign, end to end: its temporary is constructed (EvV) and destroyed (EvD), nothing else happens *)
+Example C09_roundtrip_run :
+  exists s s2, run_ops (init 2 cis2) [OCreate 0 3%N [] false; ODestroyNow 0 (0, 0)%N; OCreate 0 3%N [] false; OLock] = Ok s /\
+    run_ops s [OAssign 1 (0, 0)%N 1 (AValue 4%Z) true; OUnlock] = Ok s2 /\
+    observe s2 = observe (set_lock s 0) /\ log s2 = [EvD 2 (PTmp 1 0); EvV 2 (PTmp 1 0)] ++ log s.
+Proof. eexists. eexists. split; [vm_compute; reflexivity|]. split; [vm_compute; reflexivity|]. split; reflexivity. Qed.
+
+(* the unlocked builder: null handle and free id crash, a recycled id is reached through the stale handle *)
+Example C09_builder_null_and_free :
+  exists s, run_ops (init 2 cis2) [OCreate 0 1%N [] false; ODestroyNow 0 (0, 0)%N] = Ok s /\ lockc s = 0 /\
+    step s (OBuild 0 (Some null_handle) [] []) = Err OobIndex /\
+    step s (OBuild 0 (Some (0, 0)%N) [(1, 4%Z)] []) = Err OobIndex.
+Proof. eexists. split; [vm_compute; reflexivity|]. repeat split; vm_compute; reflexivity. Qed.
+
+Example C09_builder_stale_example :
+  exists s s1, run_ops (init 2 cis2) [OCreate 0 1%N [] false; ODestroyNow 0 (0, 0)%N; OCreate 0 1%N [] false] = Ok s /\
+    is_valid s (0, 0)%N = false /\ is_valid s (0, 1)%N = true /\
+    step s (OHas (0, 1)%N 1) = Ok (s, RBool false) /\
+    step s (OBuild 0 (Some (0, 0)%N) [(1, 4%Z)] []) = Ok (s1, RNone) /\
+    step s1 (OHas (0, 1)%N 1) = Ok (s1, RBool true) /\
+    (exists a, nth_error (archs s1) 1 = Some a /\ am_ents a = [(0, 0)%N]).
+Proof.
+  eexists. eexists. split; [vm_compute; reflexivity|]. split; [reflexivity|]. split; [reflexivity|].
+  split; [vm_compute; reflexivity|]. split; [vm_compute; reflexivity|]. split; [vm_compute; reflexivity|].
+  eexists. split; vm_compute; reflexivity.
+Qed.
